@@ -240,6 +240,29 @@ def mutate_message_and_check(acc, g, m, lmsg, specs, objs, path):
     objs = list(objs)
     specs = list(specs)
     trace = []
+    # a generic copy made with DiameterMessage.convert() is a message of its own: it serialises like its source, and changing
+    # either of the two afterwards leaves the other one's serialisation alone
+    watch = watch_wire = None
+    if r.random() < 0.4:
+        from bromelia.base import DiameterMessage
+        want0 = R.encode(R.LMsg(lmsg.version, lmsg.flags, lmsg.code, lmsg.app_id, lmsg.hbh, lmsg.e2e, lavps))
+        try:
+            conv = DiameterMessage.convert(m)
+            got0 = conv.dump()
+        except BaseException as ex:
+            acc.observe("message-convert-rejected:%s" % type(ex).__name__)
+            conv = None
+        if conv is not None:
+            acc.counters["converted_copies"] += 1
+            if got0 != want0 or m.dump() != want0:
+                which = "copy" if got0 != want0 else "source"
+                acc.violation("message-convert-changes-%s" % which, "message built by %s: after DiameterMessage.convert() the %s serialises differently from the reference" % (path, which),
+                              {"path": path, "got": (got0 if got0 != want0 else m.dump()).hex()[:800], "want": want0.hex()[:800]})
+                return
+            watch, watch_wire = (conv, want0) if r.random() < 0.5 else (m, want0)
+            if watch is m:
+                m = conv
+            path = path + ("+convert(source mutated)" if watch is conv else "+convert(copy mutated)")
     for _ in range(r.randrange(1, 4)):
         op = r.choice(["append", "pop", "setitem", "update_avp", "extend", "avps=", "cleanup"])
         try:
@@ -310,6 +333,18 @@ def mutate_message_and_check(acc, g, m, lmsg, specs, objs, path):
             acc.violation("%s-after-%s" % (key, op), "message built by %s then %s: dump() differs from the reference at offset %d" % (path, trace, off),
                           {"trace": trace, "path": path, "got": got.hex()[:800], "want": want.hex()[:800]})
             return
+        if watch is not None:
+            try:
+                other = watch.dump()
+            except BaseException as ex:
+                other = repr(ex).encode()
+            if other != watch_wire:
+                off = first_diff(other, watch_wire)
+                key = "message-length-field" if 1 <= off < 4 else ("message-header" if off < 20 else "message-avps")
+                acc.violation("%s-of-the-other-message-after-%s" % (key, op), "message built by %s then %s on one of the two: the other one's dump() now differs from the reference at offset %d" % (path, trace, off),
+                              {"trace": trace, "path": path, "got": other.hex()[:800], "want": watch_wire.hex()[:800]})
+                return
+            acc.counters["converted_copy_checks"] += 1
 
 
 def run_batch(b):
@@ -391,7 +426,7 @@ def main(tier, seed):
                            "typed message classes are covered by C09 with the same oracle",
                            "in-domain values the library rejects with an exception are observed, not judged here (C10)"],
                           t0, extra_cov={"classes_covered": len(names) - len(zero), "classes_total": len(names)},
-                          require_counters=("avp_dumps", "header_dumps", "message_dumps", "request_answer_class_dumps", "post_construction_mutations", "message_mutations"))
+                          require_counters=("avp_dumps", "header_dumps", "message_dumps", "request_answer_class_dumps", "post_construction_mutations", "message_mutations", "converted_copy_checks"))
 
 
 def replay(w):
